@@ -240,3 +240,95 @@ fn verif_native_c07_helmert_text() {
     }
     assert!(fails.is_empty(), "C07.N.helmert.text: FAILSET{{{}}} {} of {} relations violated, first: {:?}", ids.join(","), fails.len(), n, &fails[..fails.len().min(4)]);
 }
+
+//@n {"id":"C07.N.helmert.rotation","props":["C07","C01"],"tier":"quick","bound":"exact mode with LARGE rotations: 5 angle triples from 1 to 170 degrees (given in arcsec) x both conventions x scale {0, 250 ppm} x translation on/off; 6 cartesian points (15 pairwise distances); through Minimal; relative tolerance 1e-12","text":"with exact given R is a proper rotation for ANY angles: distances between transformed points are the original distances times the scale (1+s), orientation is preserved (triple product scales by (1+s)^3 > 0), the position_vector result with rotations r equals the coordinate_frame INVERSE rotation (transposed matrix) applied the same way, i.e. pv(r) forward == cf(r) inverse when no translation/scale is involved, and the inverse undoes the forward exactly (1e-6 m at 10^7 m)"}
+#[test]
+fn verif_native_c07_helmert_rotation() {
+    let mut ctx = Minimal::default();
+    let pts = [
+        Coor4D([3513638.19, 778956.45, 5248216.46, 2000.0]),
+        Coor4D([-2694045.0, -4293642.0, 3857878.0, 2001.0]),
+        Coor4D([6378137.0, 0.0, 0.0, 2002.0]),
+        Coor4D([0.0, 0.0, 6356752.0, 2003.0]),
+        Coor4D([1111.0, -2222.0, 3333.0, 2004.0]),
+        Coor4D([-5.0e6, 7.0e6, -4.0e6, 2005.0]),
+    ];
+    let angles: [[f64; 3]; 5] = [[3600.0, -7200.0, 10800.0], [72000.0, 108000.0, 144000.0], [-324000.0, 36000.0, 5000.0], [612000.0, -100000.0, 250000.0], [1.5, 200000.0, -3.25]];
+    let mut fails: Vec<String> = Vec::new();
+    let mut ids: Vec<String> = Vec::new();
+    let mut n = 0;
+    let dist = |a: &Coor4D, b: &Coor4D| hdist(a, b);
+    let triple = |o: &Coor4D, a: &Coor4D, b: &Coor4D, c: &Coor4D| {
+        let u = [a[0] - o[0], a[1] - o[1], a[2] - o[2]];
+        let v = [b[0] - o[0], b[1] - o[1], b[2] - o[2]];
+        let w = [c[0] - o[0], c[1] - o[1], c[2] - o[2]];
+        u[0] * (v[1] * w[2] - v[2] * w[1]) - u[1] * (v[0] * w[2] - v[2] * w[0]) + u[2] * (v[0] * w[1] - v[1] * w[0])
+    };
+    for (ai, r) in angles.iter().enumerate() {
+        for (ci, conv) in ["position_vector", "coordinate_frame"].into_iter().enumerate() {
+            for (si, s) in [0.0f64, 250.0].into_iter().enumerate() {
+                for tr in [false, true] {
+                    let tag = format!("{ai}{}{si}{}", if ci == 0 { "p" } else { "c" }, if tr { "t" } else { "o" });
+                    let def = format!("helmert exact convention={conv} rx={:?} ry={:?} rz={:?} s={:?}{}", r[0], r[1], r[2], s, if tr { " x=1000 y=-2000 z=3000" } else { "" });
+                    let (cnt, out) = match hrun(&mut ctx, &def, Fwd, &pts) {
+                        Ok(x) => x,
+                        Err(e) => {
+                            ids.push(format!("{tag}new"));
+                            fails.push(format!("`{def}`: {e}"));
+                            continue;
+                        }
+                    };
+                    n += 1;
+                    let k = 1.0 + s * 1e-6;
+                    let mut bad: Option<String> = None;
+                    if cnt != pts.len() || (0..pts.len()).any(|i| out[i][3].to_bits() != pts[i][3].to_bits()) {
+                        bad = Some(format!("count {cnt} / fourth coordinate changed"));
+                    }
+                    for i in 0..pts.len() {
+                        for j in (i + 1)..pts.len() {
+                            let (d0, d1) = (dist(&pts[i], &pts[j]), dist(&out[i], &out[j]));
+                            if !((d1 - k * d0).abs() <= 1e-12 * d0.max(1.0) * 10.0) && bad.is_none() {
+                                bad = Some(format!("distance {d0} between points {i},{j} becomes {d1}, expected {}", k * d0));
+                            }
+                        }
+                    }
+                    let (t0, t1) = (triple(&pts[0], &pts[1], &pts[2], &pts[3]), triple(&out[0], &out[1], &out[2], &out[3]));
+                    if !((t1 - k * k * k * t0).abs() <= 1e-9 * t0.abs()) && bad.is_none() {
+                        bad = Some(format!("oriented volume {t0} becomes {t1}, expected {}", k * k * k * t0));
+                    }
+                    // inverse undoes forward
+                    match hrun(&mut ctx, &def, Inv, &out) {
+                        Ok((_, back)) => {
+                            if let Some(i) = (0..pts.len()).find(|i| !(dist(&back[*i], &pts[*i]) <= 1e-6)) {
+                                if bad.is_none() {
+                                    bad = Some(format!("inverse of forward: {:?} instead of {:?}", back[i], pts[i]));
+                                }
+                            }
+                        }
+                        Err(e) => bad = Some(e),
+                    }
+                    // transposition: without translation and scale, forward in one convention == inverse in the other
+                    if !tr && s == 0.0 {
+                        let other = if ci == 0 { "coordinate_frame" } else { "position_vector" };
+                        let odef = format!("helmert exact convention={other} rx={:?} ry={:?} rz={:?}", r[0], r[1], r[2]);
+                        match hrun(&mut ctx, &odef, Inv, &pts) {
+                            Ok((_, o)) => {
+                                if let Some(i) = (0..pts.len()).find(|i| !(dist(&o[*i], &out[*i]) <= 1e-6)) {
+                                    if bad.is_none() {
+                                        bad = Some(format!("forward {:?} but the other convention's inverse gives {:?}", out[i], o[i]));
+                                    }
+                                }
+                            }
+                            Err(e) => bad = Some(e),
+                        }
+                    }
+                    if let Some(b) = bad {
+                        ids.push(tag);
+                        fails.push(format!("`{def}`: {b}"));
+                    }
+                }
+            }
+        }
+    }
+    assert!(fails.is_empty(), "C07.N.helmert.rotation: FAILSET{{{}}} {} of {} definitions wrong, first: {:?}", ids.join(","), fails.len(), n, &fails[..fails.len().min(4)]);
+}
